@@ -10,9 +10,15 @@ save under the event discipline (`C04_complete_partial`), crash safety of every 
 (`C04_crash`, `C04_old_roots`).  The event discipline (`Disc`: a replaced node is live; and `hcov`: the nodes of the
 final tree are in the live set computed from the events) is NOT proved for the events emitted by
 `insertE`/`deleteE`/merge; it is checked by the harness on the recorded Go event log of every generated history
-(`checkDiscipline` in go/harness/mptstore.go).  The full statement is `C04_complete_statement`.
+(`checkDiscipline` in go/harness/mptstore.go).  `C04_complete` is the closed form for a round of inserts/deletes on one trie:
+there the discipline is proved (Lemmas/EventDisc, EventKeys, MptRound) and only key injectivity (`KeyInjOn`) is assumed.
 -/
 import Verif.Lemmas.MptStoreTrie
+import Verif.Lemmas.MptRound
+import Verif.Lemmas.MergeRound
+import Verif.Lemmas.OrderChanges
+import Verif.Lemmas.TrieRun
+import Verif.Lemmas.RefKeyInj
 namespace Verif.Props.C04
 open Verif.Mpt Verif.MptStore Verif.MptStore.Collector
 
@@ -125,23 +131,178 @@ example : Resolves id
     simp [insertE, refs, eventRefs] at ha hb
     rw [ha, hb]
 
-/-- The full statement of completeness: for the events actually emitted by a sequence of inserts and deletes of a
-    block trie (no discipline hypotheses).  NOT proved (see the header); `C04_complete_partial` is this statement with
-    `Disc` and the cover property as explicit hypotheses. -/
-inductive RoundEvents (v : Nat) : Node → List Event → Node → Prop where
-  | nil (t : Node) : RoundEvents v t [] t
-  | ins (t : Node) (p : List Nib) (b : Bytes) (es : List Event) (t' : Node) :
-      RoundEvents v (insertE v b t [] p).1 es t' → RoundEvents v t ((insertE v b t [] p).2 ++ es) t'
-  | del (t n : Node) (p : List Nib) (ev es : List Event) (t' : Node) :
-      deleteE v t [] p = (.node n, ev) → RoundEvents v n es t' → RoundEvents v t (ev ++ es) t'
+/-- **Saved state is complete** — closed form for a round of inserts and deletes on the block trie: the event
+    discipline is PROVED for the emitted events (`Lemmas/EventDisc`: every replaced or deleted node is live, the final
+    tree's nodes are live, at the level of (position, subtree) references; `Lemmas/EventKeys`: transfer to keys).
+    Remaining hypotheses: the start tree is canonical and resolves, the collector is fresh, and the key is injective on
+    the references of the start tree and of the round's events (`KeyInjOn`: SHA3 collision resistance plus absence of
+    the untagged-encoding confusions of finding C02-type-confusion among these nodes). -/
+theorem C04_complete (H : Bytes → Bytes) (P0 : PStore) (t0 t : Node) (b0 : Trie) (v : Nat) (es : List Event)
+    (hfresh : b0.cc.changes = [] ∧ b0.cc.deletes = [])
+    (h0 : Resolves H (Map.get P0.nodes) t0 [])
+    (hw : WF t0)
+    (hr : RoundEvents v t0 es t)
+    (hU : KeyInjOn H (fun r => r ∈ refs t0 [] ∨ r ∈ eventRefs es)) :
+    Resolves H (Map.get (P0.applyAll (saveStream H (b0.applyEvents H es))).nodes) t [] := by
+  obtain ⟨hd, hc, _⟩ := round_discipline H hr hw hU
+  obtain ⟨_, hcr, _⟩ := round_ok hr hw (fun r => r ∈ refs t0 []) (fun _ h => h)
+  have hsub : ∀ r ∈ refs t [], r ∈ refs t0 [] ∨ r ∈ eventRefs es := fun r h => liveRunR_sub es _ r (hcr r h)
+  apply C04_complete_partial H P0 t0 t b0 es hfresh h0 hd hc
+  intro a b ha hb hk
+  have haU : a ∈ refs t0 [] ∨ a ∈ eventRefs es := by
+    rcases ha with ha | ha | ha
+    · exact Or.inl ha
+    · exact hsub a ha
+    · exact Or.inr ha
+  have hbU : b ∈ refs t0 [] ∨ b ∈ eventRefs es := by
+    rcases hb with hb | hb | hb
+    · exact Or.inl hb
+    · exact hsub b hb
+    · exact Or.inr hb
+  rw [hU a b haU hbU hk]
 
-def C04_complete_statement : Prop :=
-  ∀ (H : Bytes → Bytes) (P0 : PStore) (t0 t : Node) (b0 : Trie) (v : Nat) (es : List Event),
-    (b0.cc.changes = [] ∧ b0.cc.deletes = []) →
-    Resolves H (Map.get P0.nodes) t0 [] →
-    RoundEvents v t0 es t →
-    KeyFaithful H (fun r => r ∈ refs t0 [] ∨ r ∈ refs t [] ∨ r ∈ eventRefs es) →
-    Resolves H (Map.get (P0.applyAll (saveStream H (b0.applyEvents H es))).nodes) t []
+/-- **Saved state is complete — from primitive assumptions on the hash.**  `C04_complete` with `KeyInjOn` discharged by
+    `keyInjOn_of_hyps`: on a sub-node-closed set `V` of canonical nodes with origins below 2^64 containing the start
+    tree's and the events' references, the hash has no collision between hash inputs of nodes of `V`, never returns the
+    empty string, and no two nodes of different type in `V` have the same (untagged) hash input — the negation of
+    exactly the confusions of known finding C02-type-confusion. -/
+theorem C04_complete_primitive (H : Bytes → Bytes) (P0 : PStore) (t0 t : Node) (b0 : Trie) (v : Nat) (es : List Event)
+    (V : Ref → Prop) (hy : KeyHyps H V) (hV : ∀ r, (r ∈ refs t0 [] ∨ r ∈ eventRefs es) → V r)
+    (hfresh : b0.cc.changes = [] ∧ b0.cc.deletes = [])
+    (h0 : Resolves H (Map.get P0.nodes) t0 []) (hw : WF t0) (hr : RoundEvents v t0 es t) :
+    Resolves H (Map.get (P0.applyAll (saveStream H (b0.applyEvents H es))).nodes) t [] :=
+  C04_complete H P0 t0 t b0 v es hfresh h0 hw hr
+    (fun a b ha hb hk => keyInjOn_of_hyps H V hy a b (hV a ha) (hV b hb) hk)
+
+/-- non-vacuity of `KeyHyps`: one leaf, the injective non-empty hash `x ↦ 0 :: x` -/
+example : KeyHyps (fun x => (0 : UInt8) :: x) (fun r => r = ⟨[], .leaf 1 [3] [65]⟩) where
+  closed := by intro r hr s hs; subst hr; simpa [refs] using hs
+  wf := by intro r hr; subst hr; simp [WFn]
+  org := by intro r hr; subst hr; simp [origin]
+  hne := by intro x; simp
+  hH := by intro a b ha hb _; subst ha; subst hb; rfl
+  hsep := by intro a b ha hb _; subst ha; subst hb; simp [sameCtor]
+
+/-- **Saved state is complete — a round with one merged transaction.**  The block trie `b0` (fresh collector) executes
+    the round `esP` from `t0` to `t1`; a child opened on `t1` (fresh collector `c0`) executes the round `esC` to `t2`;
+    the block trie replays the child's pending changes in the order `orderChanges` computes, then its deletes
+    (`mergeChanges`), and saves.  The event discipline is PROVED for all of it (own operations: Lemmas/EventDisc;
+    the replay: Lemmas/Collector2, MergeCalls).  Remaining hypotheses: canonical resolvable start tree, key injectivity
+    on the references involved, and that `orderChanges` does not get stuck on the child's changes (`orderStuck = false`,
+    an executable test: no cycle of replacements; then its output is a permutation in which no change replaces a key
+    after a change (re)created it, `orderChanges_good`; the model driver evaluates the test at every merge). -/
+theorem C04_complete_one_merge (H : Bytes → Bytes) (P0 : PStore) (t0 t1 t2 : Node) (b0 c0 : Trie) (v : Nat)
+    (esP esC : List Event)
+    (hfresh : b0.cc.changes = [] ∧ b0.cc.deletes = []) (hfreshC : c0.cc.changes = [] ∧ c0.cc.deletes = [])
+    (h0 : Resolves H (Map.get P0.nodes) t0 []) (hw : WF t0)
+    (hP : RoundEvents v t0 esP t1) (hC : RoundEvents v t1 esC t2)
+    (hstuck : orderStuck H (c0.applyEvents H esC).cc.getChanges = false)
+    (hU : KeyInjOn H (fun r => r ∈ refs t0 [] ∨ r ∈ eventRefs esP ∨ r ∈ eventRefs esC)) :
+    Resolves H (Map.get (P0.applyAll (saveStream H (b0.applyEvents H
+      (esP ++ mergeEvents (orderChanges H (c0.applyEvents H esC).cc.getChanges) (c0.applyEvents H esC).cc.getDeletes)))).nodes)
+      t2 [] := by
+  have hgood := orderChanges_good H _ hstuck
+  obtain ⟨hd, hc, hsubE⟩ := one_merge_discipline H hP hC hw c0 hfreshC _ (orderChanges_perm H _) hgood hU
+  obtain ⟨_, hcrP, hw1⟩ := round_ok hP hw (fun r => r ∈ refs t0 []) (fun _ h => h)
+  obtain ⟨_, hcrC, _⟩ := round_ok hC hw1 (fun r => r ∈ refs t1 []) (fun _ h => h)
+  have hin : ∀ r, (r ∈ refs t0 [] ∨ r ∈ refs t2 [] ∨ r ∈ eventRefs (esP ++ mergeEvents (orderChanges H
+      (c0.applyEvents H esC).cc.getChanges) (c0.applyEvents H esC).cc.getDeletes)) →
+      (r ∈ refs t0 [] ∨ r ∈ eventRefs esP ∨ r ∈ eventRefs esC) := by
+    intro r hr
+    rcases hr with hr | hr | hr
+    · exact Or.inl hr
+    · rcases liveRunR_sub esC _ r (hcrC r hr) with h | h
+      · rcases liveRunR_sub esP _ r (hcrP r h) with h | h
+        · exact Or.inl h
+        · exact Or.inr (Or.inl h)
+      · exact Or.inr (Or.inr h)
+    · exact Or.inr (hsubE r hr)
+  apply C04_complete_partial H P0 t0 t2 b0 _ hfresh h0 hd hc
+  intro a b ha hb hk
+  rw [hU a b (hin a ha) (hin b hb) hk]
+
+/-- **Saved state is complete — any round of a block trie**: own operations and merges of transactions in any number
+    and order, transactions themselves containing nested merged transactions (`TrieRun`; each child is opened on the
+    current tree with a fresh collector and its pending changes are replayed in the order `orderChanges` computes, which
+    must not be stuck).  No discipline hypothesis: it is proved for every such run (`trieRun_discipline`).  Remaining:
+    canonical resolvable start tree, key injectivity on the references `U` of the run. -/
+theorem C04_complete_run (H : Bytes → Bytes) (U : Ref → Prop) (P0 : PStore) (t0 t : Node) (b0 : Trie) (v : Nat)
+    (es : List Event)
+    (hfresh : b0.cc.changes = [] ∧ b0.cc.deletes = [])
+    (h0 : Resolves H (Map.get P0.nodes) t0 []) (hw : WF t0) (hUt : ∀ r ∈ refs t0 [], U r)
+    (hrun : TrieRun H U v t0 es t) (hU : KeyInjOn H U) :
+    Resolves H (Map.get (P0.applyAll (saveStream H (b0.applyEvents H es))).nodes) t [] := by
+  obtain ⟨hd, hc, _, hE, hUt'⟩ := trieRun_discipline H U hU hrun hw hUt (fun x => x ∈ (refs t0 []).map (Ref.key H))
+    (fun r hr => List.mem_map.mpr ⟨r, hr, rfl⟩)
+    (by intro x hx; obtain ⟨r, hr, hk⟩ := List.mem_map.mp hx; exact ⟨r, hUt r hr, hk⟩)
+  apply C04_complete_partial H P0 t0 t b0 es hfresh h0 hd hc
+  intro a b ha hb hk
+  have hin : ∀ r, (r ∈ refs t0 [] ∨ r ∈ refs t [] ∨ r ∈ eventRefs es) → U r := by
+    intro r hr
+    rcases hr with hr | hr | hr
+    · exact hUt r hr
+    · exact hUt' r hr
+    · exact hE r hr
+  rw [hU a b (hin a ha) (hin b hb) hk]
+
+/-- non-vacuity of `C04_complete_run` (and `TrieRun`): the block trie merges one transaction that inserted a key -/
+example : ∃ es, TrieRun id (fun r => r = ⟨[], .leaf 1 [3] [65]⟩) 1 .empty es (.leaf 1 [3] [65]) ∧
+    Resolves id (Map.get (({} : PStore).applyAll (saveStream id ((Trie.open [] .empty 1).applyEvents id es))).nodes)
+      (.leaf 1 [3] [65]) [] := by
+  have hC : RoundEvents 1 .empty ((insertE 1 [65] .empty [] [3]).2 ++ []) (.leaf 1 [3] [65]) := by
+    apply RoundEvents.ins _ _ _ _ _ (by simp)
+    have h1 : (insertE 1 [65] .empty [] [3]).1 = .leaf 1 [3] [65] := by simp [insertE]
+    rw [h1]; exact RoundEvents.nil _
+  have hchild : TrieRun id (fun r => r = ⟨[], .leaf 1 [3] [65]⟩) 1 .empty
+      (((insertE 1 [65] .empty [] [3]).2 ++ []) ++ []) (.leaf 1 [3] [65]) :=
+    TrieRun.own _ _ _ _ _ hC (by intro r hr; simpa [insertE, eventRefs] using hr) (TrieRun.nil _)
+  have hrun := TrieRun.merge (H := id) (U := fun r => r = ⟨[], .leaf 1 [3] [65]⟩) (v := 1) .empty (.leaf 1 [3] [65])
+    (.leaf 1 [3] [65]) (Trie.open [] .empty 1) _ [] ⟨rfl, rfl⟩ hchild (by decide) (TrieRun.nil _)
+  refine ⟨_, hrun, ?_⟩
+  apply C04_complete_run id _ {} .empty _ (Trie.open [] .empty 1) 1 _ ⟨rfl, rfl⟩ (by intro r h; simp [refs] at h)
+    (Or.inl rfl) (by intro r h; simp [refs] at h) hrun
+  intro a b ha hb _
+  rw [ha, hb]
+
+/-- non-vacuity of `C04_complete_one_merge`: the block trie does nothing itself, one transaction inserts a key -/
+example : Resolves id (Map.get (({} : PStore).applyAll (saveStream id ((Trie.open [] .empty 1).applyEvents id
+      ([] ++ mergeEvents (orderChanges id ((Trie.open [] .empty 1).applyEvents id (insertE 1 [65] .empty [] [3]).2).cc.getChanges)
+        ((Trie.open [] .empty 1).applyEvents id (insertE 1 [65] .empty [] [3]).2).cc.getDeletes)))).nodes)
+      (.leaf 1 [3] [65]) [] := by
+  have hC : RoundEvents 1 .empty ((insertE 1 [65] .empty [] [3]).2 ++ []) (.leaf 1 [3] [65]) := by
+    apply RoundEvents.ins _ _ _ _ _ (by simp)
+    have h1 : (insertE 1 [65] .empty [] [3]).1 = .leaf 1 [3] [65] := by simp [insertE]
+    rw [h1]; exact RoundEvents.nil _
+  have := C04_complete_one_merge id {} .empty .empty (.leaf 1 [3] [65]) (Trie.open [] .empty 1) (Trie.open [] .empty 1) 1
+    [] ((insertE 1 [65] .empty [] [3]).2 ++ []) ⟨rfl, rfl⟩ ⟨rfl, rfl⟩ (by intro r h; simp [refs] at h) (Or.inl rfl)
+    (RoundEvents.nil _) hC (by decide) (by
+      intro a b ha hb _
+      simp [refs, insertE, eventRefs] at ha hb
+      rw [ha, hb])
+  simpa using this
+
+/-- non-vacuity of `C04_complete`: a round that inserts a key and overwrites it, saved into an empty store -/
+example : ∃ t, RoundEvents 1 .empty ((insertE 1 [65] .empty [] [3]).2 ++ ((insertE 1 [66] (.leaf 1 [3] [65]) [] [3]).2 ++ [])) t ∧
+    Resolves id (Map.get (({} : PStore).applyAll (saveStream id ((Trie.open [] .empty 1).applyEvents id
+      ((insertE 1 [65] .empty [] [3]).2 ++ ((insertE 1 [66] (.leaf 1 [3] [65]) [] [3]).2 ++ []))))).nodes) t [] := by
+  have hr : RoundEvents 1 .empty ((insertE 1 [65] .empty [] [3]).2 ++ ((insertE 1 [66] (.leaf 1 [3] [65]) [] [3]).2 ++ []))
+      (.leaf 1 [3] [66]) := by
+    apply RoundEvents.ins _ _ _ _ _ (by simp)
+    have h1 : (insertE 1 [65] .empty [] [3]).1 = .leaf 1 [3] [65] := by simp [insertE]
+    rw [h1]
+    apply RoundEvents.ins _ _ _ _ _ (by simp)
+    have h2 : (insertE 1 [66] (.leaf 1 [3] [65]) [] [3]).1 = .leaf 1 [3] [66] := by simp [insertE, splitCommon]
+    rw [h2]
+    exact RoundEvents.nil _
+  refine ⟨_, hr, C04_complete id {} .empty _ (Trie.open [] .empty 1) 1 _ ⟨rfl, rfl⟩ ?_ (Or.inl rfl) hr ?_⟩
+  · intro r h; simp [refs] at h
+  · intro a b ha hb hk
+    simp [refs, insertE, splitCommon, eventRefs] at ha hb
+    have hne : Ref.key id ⟨[], .leaf 1 [3] [65]⟩ ≠ Ref.key id ⟨[], .leaf 1 [3] [66]⟩ := by
+      intro h
+      simp [Ref.key, key, le64] at h
+    rcases ha with ha | ha <;> rcases hb with hb | hb <;> subst ha <;> subst hb <;>
+      first | rfl | exact absurd hk hne | exact absurd hk.symm hne
 
 /-- **Crash safety of a save.**  For ANY prefix of the save's write stream `[batch of new nodes, dead-node record]`
     every tree that resolved in the store before the save still resolves. -/
